@@ -597,7 +597,7 @@ def run_property(prop, tier, seed):
                 b = impl[o.idx]
                 rc_ = res_class(b)
                 dist[rc_] = dist.get(rc_, 0) + 1
-                if len(b) > 1 or rc_ not in ("ok",):
+                if len(b) > 1 or rc_ not in ("ok",) or spec.get("count_all"):
                     distinct.add(hashlib.sha1(o.line.encode()).hexdigest())
             step = max(1, len(ops) // 3)
             for o in ops[::step][:3]:
